@@ -24,7 +24,7 @@ func TestVerifC06_LibHeaderTail(t *testing.T) {
 		n := rapid.SampledFrom([]int{0, 1, 2, 5, 30, 99, 100, 101, 199, 200, 201, 350}).Draw(t, "n")
 		lines := make([]string, n)
 		for i := range lines {
-			lines[i] = fmt.Sprintf("%s%d", rapid.SampledFrom([]string{"a", "b", "ab ", " x", ""}).Draw(t, "w"), i)
+			lines[i] = fmt.Sprintf("%s%d%s", rapid.SampledFrom([]string{"a", "b", "ab ", " x", ""}).Draw(t, "w"), i, rapid.SampledFrom([]string{"", "", "", "  ", "\t"}).Draw(t, "trailing"))
 		}
 		header := rapid.SampledFrom([]int{0, 0, 1, 2, 5, 100, 101}).Draw(t, "header")
 		tail := rapid.SampledFrom([]int{0, 0, 1, 2, 3, 50, 99, 100, 101, 150, 200, 400}).Draw(t, "tail")
@@ -36,6 +36,13 @@ func TestVerifC06_LibHeaderTail(t *testing.T) {
 		}
 		if tail > 0 {
 			a = append(a, fmt.Sprintf("--tail=%d", tail))
+		}
+		// a display transformation that shows the whole line must not change what an item is
+		if wn := rapid.SampledFrom([]string{"", "", "..", "1..", "1"}).Draw(t, "withNth"); wn != "" {
+			a = append(a, "--with-nth", wn)
+			if wn == "1" {
+				a = append(a, "--delimiter", "\x01") // no line contains it: the first field is the whole line
+			}
 		}
 		a = append(a, mode...)
 		got, _ := runFilter(t, a, lines)
